@@ -1,4 +1,5 @@
 import NitroVerif.Lemmas.Peg
+import NitroVerif.Lemmas.Build
 import NitroVerif.Model.Build
 import NitroVerif.Spec.Lex
 /-!
@@ -53,6 +54,17 @@ theorem numbers_verbatim (inp : List Char) (fuel : Nat) (vs ve s e : Nat) (cs : 
     buildValue (Ctx.spec inp) (fuel + 1) (.mk R.Value vs ve [.mk R.FloatValue s e cs]) =
       .ok (.float (String.ofList (slice inp s e)) { line := (lineCol inp s).1, col := (lineCol inp s).2 }) := by
   constructor <;> rfl
+
+/-- the compiled driver's O(1) tables are the definitions above: the position table and the array-backed text of
+    `Ctx.ofInput` (what K runs) agree with `lineCol` / `slice` (what the theorems are about) at every offset of the
+    input; the array-backed grammar table agrees with the list-backed one (`Peg.G.ofArray_look`). -/
+theorem driver_tables_agree (inp : List Char) :
+    (∀ o, o ≤ inp.length → (Ctx.ofInput inp).pos o = (Ctx.spec inp).pos o) ∧
+    (∀ s e, (Ctx.ofInput inp).text s e = (Ctx.spec inp).text s e) ∧
+    (∀ r, gArr.look r = gList.look r) :=
+  ⟨ofInput_pos inp, ofInput_text inp, fun r => by
+    unfold gArr gList
+    exact G.ofArray_look _ _ _ r⟩
 
 /-! ### terminals -/
 
